@@ -12,3 +12,5 @@ import CruxVerif.Props.C02
 #print axioms Props.C02.poll_keeps_channels_unshared
 #print axioms Props.C02.poll_never_adopts_foreign_channel
 #print axioms Props.C02.channels_unshared_over_runs_partial
+#print axioms Props.C02.channels_unshared_over_runs
+#print axioms Props.C02.commands_never_share_a_channel
